@@ -567,6 +567,111 @@ def r11_retire_atomic(ctx, prog):
                where=w.loc(fr['i']))
 
 
+def r12_submission(ctx, prog):
+    ctx.rule('C05.R12', 'A4 a submission is complete: in the execute() overload that files the task (pool and single work thread), on every path that returns the task\'s token the item '
+             'got its body from the body parameter and its completion callback from the callback parameter, was filed in the waiting cabinet, its token — the one returned — was '
+             'queued at the back of a waiting list, and a worker was notified after the queueing (an idle worker sleeps on the condition variable: without the notification the task '
+             'waits until some other submission arrives)', floor=2)
+    for cls in CLASSES:
+        fs = [g for g in prog.fn(cls + '::execute') if any(c.get('fn') == 'alloc' and 'task_pool' in (g.path(c['obj']) if 'obj' in c else '') for c in g.calls())]
+        if len(fs) != 1:
+            raise AnalysisBroken('%s::execute: the overload that allocates the task item was not found (%d)' % (cls, len(fs)))
+        f = fs[0]
+        item = [d['d'] for st in f.stmts if st and st['k'] == 'DeclStmt' for d in st['decls'] if 'init' in d and any(c.get('fn') == 'alloc' and 'task_pool' in (f.path(c['obj']) if 'obj' in c else '')
+                                                                                                                  for c in q.subtree_calls(f, d['init']))]
+        pushes = [c for c in f.calls() if c.get('fn') in ('push_back', 'emplace_back') and 'obj' in c and 'undo_tasks_token' in f.path(c['obj'])]
+        notes = [c for c in f.calls() if c.get('fn') in ('notify_one', 'notify_all') and 'obj' in c and (f.field_of(c['obj']) or f.path(c['obj']) or '').endswith('cond_var')]
+        files = [c for c in f.calls() if c.get('fn') == 'alloc' and 'obj' in c and 'undo_tasks_cabinet' in f.path(c['obj']) and c.get('args') and (f.s(f.strip_casts(c['args'][0])) or {}).get('d') in item]
+        tokvars = set()
+        for c in files:
+            # token = cabinet.alloc(item), possibly chained: item->token = token = alloc(item)
+            cur = c['i']
+            while True:
+                par, _ = f.up(cur)
+                ps = f.s(par) if par is not None else None
+                if ps is None or not (ps['k'] in ('BinaryOperator', 'CXXOperatorCallExpr') and ps.get('op') == '=') and ps['k'] not in ('ImplicitCastExpr', 'MaterializeTemporaryExpr', 'CXXBindTemporaryExpr', 'ExprWithCleanups', 'CXXConstructExpr'):
+                    break
+                if ps.get('op') == '=':
+                    lhs = f.s(f.strip_casts(ps['obj'] if 'obj' in ps else ps['ch'][0]))
+                    if lhs is not None and lhs['k'] == 'DeclRefExpr':
+                        tokvars.add(lhs['d'])
+                cur = par
+        good_rets = [r for r in q.returns(f) if r.get('val') is not None and any(f.stmts[x]['k'] == 'DeclRefExpr' and f.stmts[x].get('d') in tokvars for x in f.walk(r['val'])) and
+                     any(f.cfg.exists_path(q.pt(f, c), q.pt(f, r)) for c in files)]
+
+        def stored(field, param_idx):
+            ws = [(a, rhs) for a, rhs in q.assigns(f, field) if rhs is not None and any(f.stmts[x]['k'] == 'DeclRefExpr' and f.stmts[x].get('d') == f.params[param_idx]['d'] for x in f.walk(rhs))]
+            return ws
+        body_w, cb_w = stored('backend_task', 0), stored('main_cb', 1)
+        why = None
+        if not item or not files or not pushes or not good_rets:
+            why = 'the task item is not allocated, filed in undo_tasks_cabinet, queued and its token returned'
+        else:
+            ent = f.cfg.entry_point()
+            for r in good_rets:
+                rp = q.pt(f, r)
+                for c in files:
+                    fpt = q.pt(f, c)
+                    if not f.cfg.exists_path(fpt, rp):
+                        continue
+
+                    def skipped(pts_):
+                        """some path through the filing call to this return passes none of pts_"""
+                        return f.cfg.exists_path(ent, fpt, avoid=pts_) and f.cfg.exists_path(fpt, rp, avoid=pts_)
+                    if not body_w or skipped([q.pt(f, a) for a, _ in body_w]):
+                        why = why or 'a path files and returns the task without storing the body parameter in the item: the worker runs an empty function'
+                    if not cb_w or skipped([q.pt(f, a) for a, _ in cb_w]):
+                        why = why or 'a path files and returns the task without storing the completion callback parameter in the item: the caller is never told the task finished'
+                    pp = q.pts(f, pushes)
+                    if skipped(pp):
+                        why = why or 'a path returns the token of a task that was never queued for the workers'
+                    if not all(len(c2.get('args', [])) == 1 and (f.s(f.strip_casts(c2['args'][0])) or {}).get('d') in tokvars for c2 in pushes):
+                        why = why or 'the token queued for the workers is not the token returned to the caller'
+                    np_ = q.pts(f, notes)
+                    if not notes or any(f.cfg.exists_path(p_, rp, avoid=np_) for p_ in pp if f.cfg.exists_path(p_, rp)):
+                        why = why or 'a path queues the task and returns without notifying the condition variable: an idle worker keeps sleeping and the task waits for an unrelated submission'
+        ctx.ob('C05.R12', '%s|complete' % f.name, why is None, 'body and callback stored, item filed, its token queued and returned, a worker notified' if why is None else
+               'execute(): ' + why, where=f.loc(f.body))
+
+
+def r13_progress(ctx, prog):
+    ctx.rule('C05.R13', 'A4 cleanup terminates and sees every worker: each loop of cleanup() that runs while a waiting list is non-empty removes an element of that list on every way round '
+             '(otherwise cleanup spins for ever under the lock); every thread object the pool creates is recorded in threads_cabinet on the path that created it (cleanup joins what it '
+             'finds there — a worker that was never recorded is never joined)', floor=2)
+    n = 0
+    for cls in CLASSES:
+        f = prog.fn1(cls + '::cleanup')
+        for lp in [st for st in f.stmts if st and st['k'] in ('WhileStmt', 'ForStmt', 'DoStmt') and st.get('cond') is not None]:
+            empt = [c for c in q.subtree_calls(f, lp['cond']) if c.get('fn') == 'empty' and 'obj' in c]
+            if not empt:
+                continue        # an index loop (i < x.size()) is bounded by its counter, not by draining
+            cont = f.path(empt[0]['obj'])
+            if 'undo_tasks' not in cont and 'tasks_token' not in cont:
+                continue
+            n += 1
+            body = set(f.walk(lp['body'])) if lp.get('body') is not None else set()
+            removers = [c for c in f.calls() if c['i'] in body and c.get('fn') in ('pop_front', 'pop_back', 'erase', 'clear') and 'obj' in c and f.path(c['obj']) == cont]
+            hp = f.cfg.point_of(lp['cond'])
+            # a way round: from the condition through its continue-edge back to the condition (leaving the loop and entering it again from an outer loop does not count)
+            ok = bool(removers) and hp is not None and not f.cfg.exists_path(hp, hp, avoid=q.pts(f, removers), edge_filter=lambda bb, kk, hb=hp[0]: not (bb == hb and kk == 1))
+            ctx.ob('C05.R13', '%s|drain-loop@%s' % (f.name, f.loc(lp['i']).split(':')[-1]), ok, 'every way round the loop removes an element of %s' % cont if ok else
+                   'the loop runs while %s is non-empty but a way round it removes nothing from %s: cleanup() never returns (and holds the lock while it spins)' % (cont, cont), where=f.loc(lp['i']))
+    cw = prog.fn1('tbox::eventx::ThreadPool::createWorker')
+    news = [st for st in cw.stmts if st and st['k'] == 'CXXNewExpr' and 'thread' in (st.get('cat') or st.get('at') or '')]
+    if not news:
+        raise AnalysisBroken('createWorker: creation of the std::thread not found')
+    tvar = [d['d'] for st in cw.stmts if st and st['k'] == 'DeclStmt' for d in st['decls'] if 'init' in d and any(x in set(cw.walk(d['init'])) for x in [nw['i'] for nw in news])]
+    recs = [c for c in cw.calls() if c.get('fn') in ('update', 'alloc') and 'obj' in c and 'threads_cabinet' in cw.path(c['obj']) and
+            any(cw.stmts[x]['k'] == 'DeclRefExpr' and cw.stmts[x].get('d') in tvar for a in c.get('args', []) for x in cw.walk(a))]
+    trues = [r for r in q.returns(cw) if q.return_const(cw, r) in (1, True)]
+    n += 1
+    ok = bool(recs) and bool(trues) and all(not cw.cfg.exists_path(q.pt(cw, nw), q.pt(cw, r), avoid=q.pts(cw, recs)) for nw in news for r in trues)
+    ctx.ob('C05.R13', '%s|thread-recorded' % cw.name, ok, 'the new std::thread is stored in threads_cabinet before createWorker() reports success' if ok else
+           'createWorker() can report success without storing the new std::thread in threads_cabinet: cleanup() never joins that worker', where=cw.loc(cw.body))
+    if n < 2:
+        raise AnalysisBroken('expected drain loops of cleanup() and createWorker(), found %d sites' % n)
+
+
 def run(ctx):
     prog = extract('ALL' if ctx.tier == 'thorough' else SCOPE)
     ctx.guard(r1_races, ctx, prog)
@@ -579,4 +684,6 @@ def run(ctx):
     ctx.guard(r9_nolock_user, ctx, prog)
     ctx.guard(r10_idle_counter, ctx, prog)
     ctx.guard(r11_retire_atomic, ctx, prog)
+    ctx.guard(r12_submission, ctx, prog)
+    ctx.guard(r13_progress, ctx, prog)
     return prog
